@@ -162,10 +162,16 @@ func typesEntries() []*Entry {
 	rs := types.ReceiptsForStorage{(*types.ReceiptForStorage)(richReceipt()), (*types.ReceiptForStorage)(richReceipt())}
 	es = append(es, pd("ReceiptsForStorage", func() *types.ProtoReceiptsForStorage { return new(types.ProtoReceiptsForStorage) },
 		[]*types.ProtoReceiptsForStorage{must(rs.ProtoEncode())},
-		func(m *types.ProtoReceiptsForStorage) error { x := types.ReceiptsForStorage{}; return x.ProtoDecode(m, loc00) }))
+		func(m *types.ProtoReceiptsForStorage) error {
+			x := types.ReceiptsForStorage{}
+			return x.ProtoDecode(m, loc00)
+		}))
 	es = append(es, pd("ReceiptForStorage", func() *types.ProtoReceiptForStorage { return new(types.ProtoReceiptForStorage) },
 		[]*types.ProtoReceiptForStorage{must(rs[0].ProtoEncode())},
-		func(m *types.ProtoReceiptForStorage) error { x := &types.ReceiptForStorage{}; return x.ProtoDecode(m, loc00) }))
+		func(m *types.ProtoReceiptForStorage) error {
+			x := &types.ReceiptForStorage{}
+			return x.ProtoDecode(m, loc00)
+		}))
 	es = append(es, pd("LogForStorage", func() *types.ProtoLogForStorage { return new(types.ProtoLogForStorage) },
 		[]*types.ProtoLogForStorage{types.LogForStorage(*richReceipt().Logs[0]).ProtoEncode()},
 		func(m *types.ProtoLogForStorage) error { x := &types.LogForStorage{}; return x.ProtoDecode(m, loc00) }))
@@ -193,7 +199,10 @@ func typesEntries() []*Entry {
 	oad := types.OutpointAndDenomination{TxHash: h(72), Index: 2, Denomination: 3, Lock: big.NewInt(5)}
 	es = append(es, pd("OutpointAndDenomination", func() *types.ProtoOutPointAndDenomination { return new(types.ProtoOutPointAndDenomination) },
 		[]*types.ProtoOutPointAndDenomination{must(oad.ProtoEncode())},
-		func(m *types.ProtoOutPointAndDenomination) error { x := &types.OutpointAndDenomination{}; return x.ProtoDecode(m) }))
+		func(m *types.ProtoOutPointAndDenomination) error {
+			x := &types.OutpointAndDenomination{}
+			return x.ProtoDecode(m)
+		}))
 	sutxo := &types.SpentUtxoEntry{OutPoint: *types.NewOutPoint(&prev, 3), UtxoEntry: &types.UtxoEntry{Denomination: 4, Address: qiAddrIn(4).Bytes(), Lock: big.NewInt(9)}}
 	es = append(es, pd("SpentUtxoEntry", func() *types.ProtoSpentUTXO { return new(types.ProtoSpentUTXO) }, []*types.ProtoSpentUTXO{must(sutxo.ProtoEncode())},
 		func(m *types.ProtoSpentUTXO) error { x := &types.SpentUtxoEntry{}; return x.ProtoDecode(m) }))
@@ -292,7 +301,7 @@ func rlpEntries() []*Entry {
 	for _, tx := range richTxs() {
 		txBins = append(txBins, must(tx.MarshalBinary()))
 	}
-	es = append(es, &Entry{Name: "rlp.Transaction.UnmarshalBinary", Seeds: txBins, Fn: func(in []byte) (bool, error) {
+	es = append(es, &Entry{Name: "rlp.Transaction.UnmarshalBinary", Seeds: txBins, Format: "rlp1", Fn: func(in []byte) (bool, error) {
 		tx := &types.Transaction{}
 		if err := tx.UnmarshalBinary(in); err != nil {
 			return len(in) > 0 && in[0] <= 2, err
@@ -301,7 +310,7 @@ func rlpEntries() []*Entry {
 		return true, nil
 	}})
 	into := func(name string, seeds [][]byte, fresh func() interface{}) {
-		es = append(es, &Entry{Name: "rlp.DecodeBytes/" + name, Seeds: seeds, Fn: func(in []byte) (bool, error) {
+		es = append(es, &Entry{Name: "rlp.DecodeBytes/" + name, Seeds: seeds, Format: "rlp", Fn: func(in []byte) (bool, error) {
 			v := fresh()
 			if err := rlp.DecodeBytes(in, v); err != nil {
 				return false, err
@@ -332,7 +341,7 @@ func rlpEntries() []*Entry {
 func jsonEntries() []*Entry {
 	var es []*Entry
 	into := func(name string, seeds [][]byte, fresh func() interface{}, after func(interface{})) {
-		es = append(es, &Entry{Name: "json.Unmarshal/" + name, Seeds: seeds, Fn: func(in []byte) (bool, error) {
+		es = append(es, &Entry{Name: "json.Unmarshal/" + name, Seeds: seeds, Format: "json", Fn: func(in []byte) (bool, error) {
 			v := fresh()
 			if err := json.Unmarshal(in, v); err != nil {
 				return json.Valid(in), err
@@ -442,7 +451,9 @@ func rawdbEntries() []*Entry {
 		})
 	add("ReadTermini", func(db ethdb.Database) { rawdb.WriteTermini(db, hash, types.EmptyTermini()) },
 		func(db ethdb.Database) { _ = rawdb.ReadTermini(db, hash) })
-	add("ReadReceipts", func(db ethdb.Database) { rawdb.WriteReceipts(db, hash, num, types.Receipts{richReceipt(), richReceipt()}) },
+	add("ReadReceipts", func(db ethdb.Database) {
+		rawdb.WriteReceipts(db, hash, num, types.Receipts{richReceipt(), richReceipt()})
+	},
 		func(db ethdb.Database) {
 			_ = rawdb.ReadRawReceipts(db, hash, num)
 			_ = rawdb.ReadReceipts(db, hash, num, &params.ChainConfig{ChainID: big.NewInt(1), Location: loc00})
